@@ -12,10 +12,13 @@ OPS = ["ret", "retd", "ans", "pan", "unm", "dfl", "once", "n", "al", "then"]
 _T = ["ans", "once", "then"]          # ... .then(): the states reached AFTER it carry the same ordering marker as before it
 PREFIXES = {          # shortest op prefix reaching each type state from each opener (and the same states once more behind a then())
     "some": {"DR": [], "QRV": ["ret"], "Q": ["ans"], "QRE": ["ans", "once"], "QRA": ["ans", "al"], "DMR": list(_T),
+             # the quantified states reached through the SINGLE-response builder (QuantifyReturnValue), whose methods are separate functions
+             "QREv": ["ret", "once"], "QREvn": ["ret", "n"], "QRAv": ["ret", "al"],
              "Q'": _T + ["ans"], "Q'r": _T + ["ret"], "QRE'": _T + ["ans", "once"], "QRA'": _T + ["ans", "al"], "DMR'": _T + _T},
     "each": {"DMR": [], "Q": ["ans"], "QRE": ["ans", "once"], "QRA": ["ans", "al"],
              "DMR'": list(_T), "Q'": _T + ["ans"], "QRE'": _T + ["ans", "once"], "QRA'": _T + ["ans", "al"]},
     "next": {"DR": [], "QRV": ["ret"], "Q": ["ans"], "QRE": ["ans", "once"], "DMR": list(_T),
+             "QREv": ["ret", "once"], "QREvn": ["ret", "n"],
              "Q'": _T + ["ans"], "Q'r": _T + ["ret"], "QRE'": _T + ["ans", "once"], "DMR'": _T + _T},
 }
 COQ_OP = {"ret": "OReturns 1", "retd": "OReturnsDefault", "ans": "OAnswers 1", "pan": "OPanics 1", "unm": "OUnmocked",
